@@ -12,7 +12,7 @@
 (*   regs    stack of register sets [intr, cyc, last]; one per sandbox     *)
 (*   bufs    output buffer stack; bufs[1] is what the caller's sink took   *)
 (*   sink    [failAt, calls, failed]   fault injection on the sink         *)
-(*   store   names the lazy partial store has cached                       *)
+(*   store   [policy, cache] of the partial store                           *)
 (*   status  "running" | "ok" | "err"                                      *)
 (* prog / parts / data are chosen by the bounded instance (MC modules),    *)
 (* and constant during a render.  Execution is deterministic: Step is pure *)
@@ -114,15 +114,6 @@ FreshRegs == [intr |-> "none", cyc |-> [q \in {} |-> 0], last |-> [set |-> FALSE
 St == [ctl |-> ctl, layers |-> layers, regs |-> regs, bufs |-> bufs,
        sink |-> sink, store |-> store, status |-> status]
 
-InitState(p, d, failAt) ==
-  [ctl    |-> << [f |-> "tmpl", body |-> p, pc |-> 1] >>,
-   layers |-> BaseLayers(d),
-   regs   |-> <<FreshRegs>>,
-   bufs   |-> <<"">>,
-   sink   |-> [failAt |-> failAt, calls |-> 0, failed |-> FALSE],
-   store  |-> {},
-   status |-> "running"]
-
 Tmpl(body) == [f |-> "tmpl", body |-> body, pc |-> 1]
 Push(st, fr) == [st EXCEPT !.ctl = Append(st.ctl, fr)]
 Pop(st)      == [st EXCEPT !.ctl = Rest(st.ctl)]
@@ -150,12 +141,40 @@ Write(st, text) ==
                        !.bufs = <<st.bufs[1] \o text>>]
 
 (* ----------------------------- partials ------------------------------- *)
-\* parts: name -> [ok |-> TRUE, body |-> AST] | [ok |-> FALSE]; absent = missing
+\* parts: name -> [ok |-> TRUE, body |-> AST] | [ok |-> FALSE] (does not parse);
+\* a name outside DOMAIN parts is missing.  Declarative meaning of a name:
 Decl(name) == IF name \in DOMAIN parts THEN parts[name] ELSE [ok |-> FALSE]
-\* the store remembers what it was asked for (lazy policy); the answer is Decl
+
+\* store = [policy, cache]: what the partial store holds (crates/core/src/partials)
+\*   eager     cache = every source compiled when the parser was built, failures kept
+\*   lazy      cache filled on first use, failures memoised too; a missing name is not cached
+\*   ondemand  nothing is kept, every use compiles again
+StoreInit(policy) ==
+  [policy |-> policy,
+   cache  |-> IF policy = "eager" THEN [n \in DOMAIN parts |-> parts[n]] ELSE [n \in {} |-> [ok |-> FALSE]]]
+
 PartialGet(st, name) ==
-  [st |-> [st EXCEPT !.store = IF name \in DOMAIN parts THEN st.store \cup {name} ELSE st.store],
-   res |-> Decl(name)]
+  LET c == st.store.cache IN
+  CASE st.store.policy = "eager" ->
+         [st |-> st, res |-> IF name \in DOMAIN c THEN c[name] ELSE [ok |-> FALSE]]
+    [] st.store.policy = "lazy" ->
+         IF name \in DOMAIN c THEN [st |-> st, res |-> c[name]]
+         ELSE IF name \in DOMAIN parts
+              THEN [st |-> [st EXCEPT !.store.cache = MapPut(c, name, parts[name])], res |-> parts[name]]
+              ELSE [st |-> st, res |-> [ok |-> FALSE]]
+    [] OTHER ->
+         [st |-> st, res |-> IF name \in DOMAIN parts THEN parts[name] ELSE [ok |-> FALSE]]
+
+InitStateP(p, d, failAt, policy) ==
+  [ctl    |-> << [f |-> "tmpl", body |-> p, pc |-> 1] >>,
+   layers |-> BaseLayers(d),
+   regs   |-> <<FreshRegs>>,
+   bufs   |-> <<"">>,
+   sink   |-> [failAt |-> failAt, calls |-> 0, failed |-> FALSE],
+   store  |-> StoreInit(policy),
+   status |-> "running"]
+
+InitState(p, d, failAt) == InitStateP(p, d, failAt, "eager")
 
 (* ------------------------------ loops --------------------------------- *)
 ToIntOpt(v) ==    \* scalar.to_integer(): [ok, n]
@@ -392,10 +411,11 @@ Exec(st, s) ==
               IF ~c.ok THEN Raise(st)
               ELSE IF Len(c.items) = 0 THEN Advance(st)
               ELSE RenderForIterate(Push(st, [f |-> "renderfor", s |-> s, items |-> c.items,
-                                              i |-> 1, name |-> n.name]))
+                                              i |-> 1, name |-> n.name,
+                                              sl |-> st.layers, sr |-> st.regs]))
          ELSE LET a == ArgMap(st.layers, EffArgs(s), 1) IN
               IF ~a.ok THEN Raise(st)
-              ELSE RenderActivate(st, a.m, n.name, [f |-> "render"])
+              ELSE RenderActivate(st, a.m, n.name, [f |-> "render", sl |-> st.layers, sr |-> st.regs])
 
 (* ------------------------------ returns ------------------------------- *)
 \* the body activation on top has finished: pop it and continue its owner
@@ -549,6 +569,28 @@ BreakEndsInnermostOnly ==
        /\ intr = "break" => ForFrames(ctl') = ForFrames(ctl) - 1
        /\ intr = "continue" =>
              ForFrames(ctl') = ForFrames(ctl) - (IF ctl[Len(ctl) - 1].i = Len(ctl[Len(ctl) - 1].items) THEN 1 ELSE 0)]_vars
+
+\* C19: whatever the store holds is what the sources declare
+StoreRefinesDecl == \A n \in DOMAIN store.cache : store.cache[n] = Decl(n)
+
+\* C08: while a rendered partial runs, and when it returns, the caller's scope
+\* layers (counters excepted: they are shared by all layers) and registers are
+\* exactly what they were when the render tag started
+MaskIndex(ls) == [ls EXCEPT ![IndexPos] = Layer("index", EmptyMap)]
+RenderIsolates ==
+  \A i \in 1..Len(ctl) :
+    ctl[i].f \in {"render", "renderfor"} =>
+      LET f == ctl[i]  n == Len(f.sl) IN
+      /\ Len(layers) >= n /\ MaskIndex(SubSeq(layers, 1, n)) = MaskIndex(f.sl)
+      /\ Len(regs) >= Len(f.sr) /\ SubSeq(regs, 1, Len(f.sr)) = f.sr
+\* ... and inside it only its arguments and its own assignments resolve
+RenderSeesOnlyArgs(names) ==
+  \A i \in 1..Len(layers) :
+    layers[i].kind = "sandbox" =>
+      \A n \in names : n \notin DOMAIN layers[i].m =>
+         \A top \in (i + 1)..Len(layers) :
+            (\A j \in (i + 1)..top : n \notin DOMAIN layers[j].m) =>
+               TryGet(SubSeq(layers, 1, top), n, <<>>) = Missing
 
 \* C10: after the sink failed nothing more is accepted and the result is an error
 FailedMeansErr == sink.failed => status = "err"
